@@ -35,5 +35,9 @@ def run_configs(pid, tier, level, body, explanation, rule_text, not_decided=(), 
             ck.fail("TERM", f"{cfg}:engine", f"analysis could not process the program ({type(ex).__name__}: {ex}); {tb[-3].strip() if len(tb) > 2 else ''}", kind="unanalysable")
         sigs.append([(o[0], o[1], o[2]) for o in ck.obligations[before:]])
     if len(sigs) > 1 and any(s != sigs[0] for s in sigs[1:]):
-        ck.fail("CONFIG", "cross-config", "rule outcomes differ between feature configurations")
+        diffs = []
+        for cfg_, s in zip(ck.configs[1:], sigs[1:]):
+            a, b = set(sigs[0]), set(s)
+            diffs.append(f"{cfg_}: only-default={sorted(a - b)[:3]} only-{cfg_}={sorted(b - a)[:3]}")
+        ck.fail("CONFIG", "cross-config", "rule outcomes differ between feature configurations: " + "; ".join(diffs))
     return ck
